@@ -28,6 +28,8 @@ use std::fmt::Write as _;
 const NSI: i64 = 1_000_000_000;
 
 const B: &[&str] = &[
+    // user-defined zone with a gap and a fold (zones::StepTz)
+    "uz_in_fold_first", "uz_in_fold_second", "uz_plain", "uz_no_offset_in_format",
     // target types
     "t_naive_date", "t_naive_time", "t_naive_datetime", "t_datetime_fixed",
     // date part
@@ -59,6 +61,7 @@ const B: &[&str] = &[
 ];
 /// Everything except value classes that need a particular format/value coincidence at low scale.
 const FLOOR: &[&str] = &[
+    "uz_in_fold_first", "uz_in_fold_second", "uz_plain", "uz_no_offset_in_format",
     "t_naive_date", "t_naive_time", "t_naive_datetime", "t_datetime_fixed", "d_ymd", "d_ordinal", "d_week_sun",
     "d_week_mon", "d_iso_week", "d_century_year", "d_two_digit_year", "d_iso_two_digit_year", "d_composite_D",
     "d_composite_x", "d_composite_F", "d_composite_v", "d_redundant_fields", "d_month_name_short",
@@ -2089,6 +2092,91 @@ fn phase_print_read_only(ctx: &Ctx, rep: &Report, cats: &Cats) {
     });
 }
 
+/// A zone whose offset varies (`zones::StepTz`: +01:00 / +02:00 with a gap and a fold in 2021):
+/// a `DateTime<StepTz>` printed with a format that carries the offset must read back, through the
+/// zone-side routes `TimeZone::datetime_from_str` (deprecated) and `format::parse` +
+/// `Parsed::to_datetime_with_timezone`, as the same instant with the same offset — inside the fold
+/// the printed offset is what tells the two instants of one wall clock apart. A format without an
+/// offset is judged only where the wall clock denotes one instant of the zone.
+#[allow(deprecated)]
+fn phase_user_zone(ctx: &Ctx, rep: &Report) {
+    use crate::zones::{step_candidates, step_off, StepTz, STEP_T0, STEP_T1};
+    use chrono::{Offset, Utc};
+    const WITH_OFF: &[&str] = &[
+        "%Y-%m-%d %H:%M:%S %z", "%Y-%m-%dT%H:%M:%S%:z", "%d/%m/%Y %I:%M:%S %p %:z", "%G-W%V-%u %T %z", "%Y %j %H%M%S%z",
+        "%a, %d %b %Y %H:%M:%S %z", "%Y-%m-%d %H:%M:%S%.f %:z", "%+", "%c %z", "%y%m%d %R:%S %:z", "%B %e %Y %r %z",
+    ];
+    const NO_OFF: &[&str] = &["%Y-%m-%d %H:%M:%S", "%Y-%m-%dT%H:%M:%S%.f", "%d/%m/%Y %I:%M:%S %p", "%c"];
+    let (b_f1, b_f2, b_plain, b_nooff) = (bi("uz_in_fold_first"), bi("uz_in_fold_second"), bi("uz_plain"), bi("uz_no_offset_in_format"));
+    let n_shards = 32usize;
+    let per = ctx.n(600, 20_000) / n_shards as u64 + 1;
+    par_shards(rep, ctx.threads, n_shards, |shard| {
+        let mut rng = Rng::new(ctx.seed, "C13/user-zone", shard as u64);
+        let mut loc = rep.local();
+        for _ in 0..per {
+            // instants: around the two transitions (±2.5 h, any second), elsewhere in 2020..2022
+            let u = match rng.below(4) {
+                0 => STEP_T1 - 9000 + rng.below(18000) as i64,
+                1 => STEP_T0 - 9000 + rng.below(18000) as i64,
+                2 => STEP_T1 - 3600 + rng.below(7200) as i64,
+                _ => 1_577_836_800 + rng.below(3 * 366 * 86400) as i64,
+            };
+            let off = step_off(u);
+            let l = u + off as i64;
+            let cands = step_candidates(l);
+            let Some(utc) = Utc.timestamp_opt(u, 0).single() else { continue };
+            let dt = utc.with_timezone(&StepTz);
+            let in_fold = cands.len() == 2;
+            for (fmts, has_off) in [(WITH_OFF, true), (NO_OFF, false)] {
+                let fmt = fmts[rng.below(fmts.len() as u64) as usize];
+                if !has_off && cands.len() != 1 {
+                    continue;
+                }
+                loc.eval();
+                loc.bucket(if !has_off { b_nooff } else if in_fold && cands[0] == off { b_f1 } else if in_fold { b_f2 } else { b_plain });
+                if in_fold {
+                    loc.nontrivial(h2(hstr(fmt), u as u64));
+                }
+                let text = match guard(|| dt.format(fmt).to_string()) {
+                    Ok(t) => t,
+                    Err(p) => {
+                        loc.violation(&format!("C13/DateTime<user zone>::format/panic@{}", p.site()), json!({"format": fmt, "instant": u}));
+                        continue;
+                    }
+                };
+                type R = Result<(i64, i32), String>;
+                let routes: [(&str, Box<dyn Fn() -> R + '_>); 2] = [
+                    ("TimeZone::datetime_from_str<user zone>", Box::new(|| StepTz.datetime_from_str(&text, fmt).map(|x| (x.timestamp(), x.offset().fix().local_minus_utc())).map_err(|e| format!("{:?}", e)))),
+                    (
+                        "parse+Parsed::to_datetime_with_timezone<user zone>",
+                        Box::new(|| {
+                            let mut parsed = Parsed::new();
+                            chrono::format::parse(&mut parsed, &text, StrftimeItems::new(fmt)).map_err(|e| format!("parse: {:?}", e))?;
+                            parsed.to_datetime_with_timezone(&StepTz).map(|x| (x.timestamp(), x.offset().fix().local_minus_utc())).map_err(|e| format!("{:?}", e))
+                        }),
+                    ),
+                ];
+                for (entry, f) in routes.iter() {
+                    let class = if !has_off { "format-without-offset/unambiguous-wall-clock" } else if in_fold { "wall-clock-in-fold" } else { "ordinary-wall-clock" };
+                    match guard(|| f()) {
+                        Err(p) => loc.violation(&format!("C13/{}/panic@{}", entry, p.site()), json!({"format": fmt, "text": text, "instant": u})),
+                        Ok(Ok((t, o))) if t == u && o == off => {}
+                        Ok(Ok((t, o))) => loc.violation(
+                            &format!("C13/{}/{}/reads-back-as-another-instant-or-offset", entry, class),
+                            json!({"format": fmt, "text": text, "expected": {"timestamp": u, "offset": off}, "observed": {"timestamp": t, "offset": o}}),
+                        ),
+                        Ok(Err(e)) => loc.violation(
+                            &format!("C13/{}/{}/own-output-rejected", entry, class),
+                            json!({"format": fmt, "text": text, "expected": {"timestamp": u, "offset": off}, "error": e}),
+                        ),
+                    }
+                }
+                loc.sample(|| json!({"route": "user zone", "format": fmt, "text": text, "instant": u, "offset": off, "in_fold": in_fold}));
+            }
+        }
+    });
+}
+
 pub fn run(ctx: &Ctx) -> Outcome {
     let rep = Report::with_bitmap_bits("C13", B, FLOOR, 28);
     for t in [rc::self_test(), ri::self_test(), self_test()] {
@@ -2101,6 +2189,7 @@ pub fn run(ctx: &Ctx) -> Outcome {
     phase_canonical(ctx, &rep, &cats);
     phase_generated(ctx, &rep, &cats);
     phase_print_read_only(ctx, &rep, &cats);
+    phase_user_zone(ctx, &rep);
     rep.finish(
         ctx,
         "formats: a fixed list of hand-written formats plus formats assembled by a seeded grammar (date part x time part x zone part, every numeric specifier with every padding modifier, literal / %% / white-space / no separators, redundant consistent fields); values per format: boundary-biased random (R-cal catalogue days +-3, uniform days, catalogue seconds, leap seconds on :59, catalogue and random offsets, wall clocks one step outside NaiveDate's range) restricted to the domain the format can express; each case = format the value, parse the text back (parse_from_str, parse_and_remainder, and a case/white-space perturbed text) and compare with the value truncated to the printed precision; a case is non-trivial if its value is in a boundary class the format prints (negative / 5+ digit / <1000 year, pivot years, leap second, hour 0/12, zero fraction, negative / zero / seconds-bearing offset, negative timestamp, ordinal 366 or <100, week 0/53, ISO spill day, single-digit day, range end); distinct = distinct (format, value) pairs among those (hashed bitmap, collisions under-count)",
